@@ -25,7 +25,7 @@ def _canon(v):
     return bfs.canon_value(v)
 
 
-def steps(mk, probe, is_module, eval_neutral=True, other=None, reconf=None, cast_neutral=False):
+def steps(mk, probe, is_module, eval_neutral=True, other=None, reconf=None, cast_neutral=False, custom=(), restore_other=True):
     """-> list of (step name, thunk returning the probe's observation, 'self' | 'other': the fresh object it must equal)"""
     import torch
 
@@ -75,7 +75,7 @@ def steps(mk, probe, is_module, eval_neutral=True, other=None, reconf=None, cast
                     ("half()", lambda: seeded(mk().half()), "self"), ("to(bfloat16)", lambda: seeded(mk().to(torch.bfloat16)), "self")]
         if eval_neutral:
             out += [("eval().train()", lambda: seeded(mk().eval().train()), "self"), ("eval()", lambda: seeded(mk().eval()), "self"), ("train()", lambda: seeded(mk().train()), "self")]
-        if other is not None and _canon(dict(other().state_dict())) != _canon(dict(mk().state_dict())):
+        if other is not None and restore_other and _canon(dict(other().state_dict())) != _canon(dict(mk().state_dict())):
             # (only where the checkpoint carries the configuration: a class that keeps its configuration in plain attributes has equal checkpoints)
             out += [("state_dict of another configuration", lambda: restored(other), "other"),
                     ("used, then state_dict of another configuration", lambda: restored(other, True), "other")]
@@ -85,6 +85,8 @@ def steps(mk, probe, is_module, eval_neutral=True, other=None, reconf=None, cast
             seeded(o)
             return seeded(mk())
         out.append(("another configuration built and used first", after_other, "self"))
+    for cname, cfn, cwhich in custom:
+        out.append((cname, (lambda cfn=cfn: cfn(seeded)), cwhich))
     if reconf is not None:
         def reconfigured(copy_too=False):
             o = mk()
@@ -193,9 +195,27 @@ def table(pid):
             def dec_entry(label, mkenc, mkdec, soft, mkenc_other=None, reconf=None, mkdec_other=None):
                 def mk():
                     return mkdec(mkenc())
-                extra = {}
+                extra = {"restore_other": False}     # (a decoder's own tables are built at construction; what is restored is the ENCODER, before the decoder is built)
                 if mkenc_other is not None or mkdec_other is not None:
                     extra["other"] = lambda: (mkdec_other or mkdec)((mkenc_other or mkenc)())
+                if mkenc_other is not None:
+                    def on_restored(seeded, used=False):
+                        e = mkenc()
+                        if used:
+                            k_ = int(e.code_dimension)
+                            w_ = e(torch.ones(2, k_))
+                            for fn in ("inverse_encode", "calculate_syndrome"):
+                                try:
+                                    getattr(e, fn)(w_)
+                                except Exception:  # noqa: BLE001
+                                    pass
+                        sd_other = mkenc_other().state_dict()
+                        if _canon(dict(sd_other)) == _canon(dict(e.state_dict())):
+                            raise ValueError("the checkpoint does not carry the difference between the two configurations")     # -> counted as declined
+                        e.load_state_dict(sd_other)
+                        return seeded((mkdec_other or mkdec)(e))
+                    extra["custom"] = [("built on an encoder restored from another configuration's state_dict", on_restored, "other"),
+                                       ("built on an encoder that was used and then restored from another configuration's state_dict", lambda sd: on_restored(sd, True), "other")]
                 if reconf is not None:
                     extra["reconf"] = reconf
 
@@ -208,10 +228,17 @@ def table(pid):
                         mag = torch.tensor([0.7 + 0.31 * ((3 * i) % n) for i in range(n)], dtype=f32)
                         y = (1 - 2 * cw) * mag
                         y[:, 1] = -0.4 * y[:, 1]
-                        return [d(y), d(y[:1]), d(y)]
+                        st, rows = 777, []
+                        for r_ in range(48):              # noisy words on which the decoding rules / regimes disagree
+                            row = []
+                            for c_ in range(n):
+                                st = (st * 1103515245 + 12345) % (1 << 31)
+                                row.append((1 - 2 * float(cw[r_ % cw.shape[0], c_])) * 0.9 + 2.2 * (st / (1 << 31) - 0.5) * 2)
+                            rows.append(row)
+                        return [cw, d(y), d(y[:1]), d(y), d(torch.tensor(rows, dtype=f32))]
                     w = cw.clone()
                     w[:, 2 % n] = 1 - w[:, 2 % n]
-                    return [d(w), d(w[:1]), d(w)]
+                    return [cw, d(w), d(w[:1]), d(w)]
                 return (f"decoder:{label}", mk, probe, True, True, extra)
 
             def set_regime(d):
@@ -223,7 +250,7 @@ def table(pid):
             softd = [("bp-tree", encs["ldpc"][0], lambda e: D.BeliefPropagationDecoder(e, bp_iters=6), others["ldpc"]), ("bp-tree-taylor", encs["ldpc"][0], lambda e: D.BeliefPropagationDecoder(e, bp_iters=6, arctanh=False), None),
                      ("minsum-tree", encs["ldpc"][0], lambda e: D.MinSumLDPCDecoder(e, bp_iters=6), others["ldpc"]), ("minsum-tree-normalized", encs["ldpc"][0], lambda e: D.MinSumLDPCDecoder(e, bp_iters=6, normalized=True), None),
                      ("wagner-spc4", encs["spc4"][0], lambda e: D.WagnerSoftDecisionDecoder(e), None), ("softrm-rm13", encs["rm13"][0], lambda e: D.ReedMullerDecoder(e, input_type="soft"), None)]
-            for (label, me, md, mo), soft in {"C02": [(h, False) for h in hard], "C10": [(s_, True) for s_ in softd], "C11": [], "C09": [(hard[0], False), (softd[0], True)], "C20": [(hard[1], False), (softd[2], True)]}[pid]:
+            for (label, me, md, mo), soft in {"C02": [(h, False) for h in hard], "C10": [(s_, True) for s_ in softd], "C11": [], "C09": [(hard[2], False), (hard[4], False), (softd[0], True)], "C20": [(hard[1], False), (softd[2], True)]}[pid]:
                 T.append(dec_entry(label, me, md, soft, mo))
             if pid in ("C11", "C09", "C20"):
                 T.append(dec_entry("sc-polar8_4", p84, lambda e: D.SuccessiveCancellationDecoder(e), True, None, set_regime, lambda e: D.SuccessiveCancellationDecoder(e, regime="min_sum")))
@@ -254,9 +281,10 @@ def table(pid):
                 y = y + 0.05 * torch.exp(1j * torch.arange(y.shape[-1], dtype=f32)).to(y.dtype) if y.is_complex() else y + 0.05
                 return [d(y), d(y, 0.3), d(y, torch.tensor(2.0)), getattr(d, "constellation", None)]
             stateful = nm in ("dpsk4", "dqpsk", "pi4qpsk", "pi4qpsk-natural", "oqpsk")
-            alt = {"psk8": "psk8-natural", "psk8-natural": "psk8", "qam16": "qam16-raw", "qam16-raw": "qam16", "pi4qpsk": "pi4qpsk-natural", "pi4qpsk-natural": "pi4qpsk", "pam4": "pam4-natural", "dpsk4": "dpsk4-natural"}.get(nm)
+            alt = {"psk8": "psk8-natural", "psk8-natural": "psk8", "qam16": "qam16-raw", "qam16-raw": "qam16", "pi4qpsk": "pi4qpsk-natural", "pi4qpsk-natural": "pi4qpsk", "pam4": "pam4-natural", "dpsk4": "dpsk4-natural", "dqpsk": "dqpsk-natural"}.get(nm)
             altm = dict(mods0, **{"pam4-natural": (lambda: M.PAMModulator(4, gray_coding=False), lambda: M.PAMDemodulator(4, gray_coding=False), 2),
-                                  "dpsk4-natural": (lambda: M.DPSKModulator(4, gray_coding=False), lambda: M.DPSKDemodulator(4, gray_coding=False), 2)}).get(alt)
+                                  "dpsk4-natural": (lambda: M.DPSKModulator(4, gray_coding=False), lambda: M.DPSKDemodulator(4, gray_coding=False), 2),
+                                  "dqpsk-natural": (lambda: M.DQPSKModulator(gray_coded=False), lambda: M.DQPSKDemodulator(gray_coded=False), 2)}).get(alt)
             if pid in ("C05", "C14", "C09", "C20"):
                 T.append((f"modulator:{nm}", mkm, mprobe, True, not stateful, {"other": altm[0] if altm else None}))
             if pid in ("C05", "C06", "C15", "C09", "C20"):
@@ -316,7 +344,16 @@ def table(pid):
                     outs.append(c(xx))
                     outs.append(c(xx[:1]))
                 return outs
-            T.append((f"constraint:{nm}", mk, kprobe, True, True, {"other": {"per-antenna-budget": lambda: KC.PerAntennaPowerConstraint(power_budget=torch.tensor([0.1, 0.3]))}.get(nm), "cast_neutral": True}))
+            def ksetter(**kw):
+                def f(o):
+                    for a_, v_ in kw.items():
+                        setattr(o, a_, v_)
+                return f
+            krec = {"per-antenna-budget": {"other": lambda: KC.PerAntennaPowerConstraint(power_budget=torch.tensor([0.1, 0.3]))},
+                    "total": {"other": lambda: KC.TotalPowerConstraint(0.7), "reconf": ksetter(total_power=0.7)}, "average": {"other": lambda: KC.AveragePowerConstraint(3.0), "reconf": ksetter(average_power=3.0)},
+                    "papr": {"other": lambda: KC.PAPRConstraint(1.4), "reconf": ksetter(max_papr=1.4)}, "peak": {"other": lambda: KC.PeakAmplitudeConstraint(0.6), "reconf": ksetter(max_amplitude=0.6)},
+                    "per-antenna": {"other": lambda: KC.PerAntennaPowerConstraint(uniform_power=0.4), "reconf": ksetter(uniform_power=0.4)}}
+            T.append((f"constraint:{nm}", mk, kprobe, True, True, dict(krec.get(nm, {}), cast_neutral=True)))
     if pid == "C15":
         from kaira.models.binary import soft_bit_thresholding as S
         L = S.InputType.LLR
@@ -375,7 +412,18 @@ def table(pid):
             m.add_branch("small", _lt0, _Affine(-1.0, 0.0))
             m.set_default_branch(_Affine(1.0, 100.0))
             return m
+        def mk_mixed():
+            return SequentialModel([_Affine(2.0, 1.0), _plus_one, _Affine(3.0, -1.0), _times_half])
+
+        def mk_conf():
+            from kaira.models.base import ConfigurableModel
+            m = ConfigurableModel()
+            for st in (_plus_one, _Affine(2.0, 0.0), _times_half):
+                m.add_step(st)
+            return m
         x = torch.tensor([1.0, -2.0, 0.5])
+        T.append(("model:sequential-with-plain-callables", mk_mixed, (lambda m: [m(x), len(m.steps)]), True, True))
+        T.append(("model:configurable-with-plain-callables", mk_conf, (lambda m: [m(x), len(m.steps)]), True, True))
         T.append(("model:sequential", mk_seq, (lambda m: [m(x), m(x * 2)]), True, True))
         T.append(("model:parallel", mk_par, (lambda m: [m(x), list(m(x).keys()) if isinstance(m(x), dict) else None]), True, True))
         T.append(("model:branching", mk_br, (lambda m: [m(torch.tensor(3.0)), m(torch.tensor(-3.0)), m(torch.tensor(0.5)), m(torch.tensor(3.0), True)[1]]), True, True))
@@ -395,7 +443,13 @@ def table(pid):
             a, b = pair
             return [(a + b).value, (a * b).value, a.inverse().value, a == b, hash(a) == hash(a.field(a.value)), a.field.m]
         T.append(("element:m=6", (lambda: (FiniteBifield(6)(37), FiniteBifield(6)(11))), eprobe, False, False))
-        T.append(("polynomial", (lambda: (BinaryPolynomial(0b110101), BinaryPolynomial(0b1011))), (lambda pr: [(pr[0] * pr[1]).value, (pr[0] % pr[1]).value, pr[0].gcd(pr[1]).value, pr[0].lcm(pr[1]).value, pr[0].degree]), False, False))
+        # a polynomial whose public `value` is re-assigned after use is the polynomial of the new value (only the DIVIDEND is re-assigned and only
+        # product / remainder / degree are probed: a stale divisor could make the library's division loop run for ever, which no harness survives)
+        def pset(pr):
+            pr[0].value = 0b1000000000011011
+        pprobe_ = lambda pr: [(pr[0] * pr[1]).value, (pr[0] % pr[1]).value, pr[0].degree, pr[1].degree]  # noqa: E731
+        T.append(("polynomial", (lambda: (BinaryPolynomial(0b110101), BinaryPolynomial(0b1011))), pprobe_, False, False,
+                  {"other": lambda: (BinaryPolynomial(0b1000000000011011), BinaryPolynomial(0b1011)), "reconf": pset}))
     if pid == "C19":
         try:
             from kaira.models.image.bourtsoulatze2019_deepjscc import Bourtsoulatze2019DeepJSCCDecoder, Bourtsoulatze2019DeepJSCCEncoder
@@ -422,6 +476,14 @@ def _gt1(x):
 
 def _lt0(x):
     return x < 0
+
+
+def _plus_one(x, *args, **kwargs):
+    return x + 1
+
+
+def _times_half(x, *args, **kwargs):
+    return x * 0.5
 
 
 def _affine_cls():
@@ -462,14 +524,16 @@ def run(pid, res, component="lifecycle"):
             torch.manual_seed(4242)
             refs["self"] = _canon(probe(mk()))
             if other is not None:
-                torch.manual_seed(4242)
-                refs["other"] = _canon(probe(other()))
-                if refs["other"] == refs["self"]:
-                    other = reconf = None         # the probe does not tell the two configurations apart: nothing to learn from them
+                try:
+                    torch.manual_seed(4242)
+                    refs["other"] = _canon(probe(other()))
+                except Exception:  # noqa: BLE001   (the library declines the other configuration: nothing to compare with)
+                    res.rejected += 1
+                    other = reconf = None
         except Exception as e:  # noqa: BLE001
             res.viol(component, label, "raises", f"probe on a fresh object: {type(e).__name__}: {str(e)[:200]}")
             continue
-        for sname, thunk, which in steps(mk, probe, is_module, eval_neutral, other, reconf if other is not None else None, bool(extra.get("cast_neutral"))):
+        for sname, thunk, which in steps(mk, probe, is_module, eval_neutral, other, reconf if other is not None else None, bool(extra.get("cast_neutral")), extra.get("custom", ()), extra.get("restore_other", True)):
             try:
                 got = _canon(thunk())
             except Exception:  # noqa: BLE001   (a class may decline a step: not picklable, strict state_dict, read-only attribute, ...)
